@@ -7,7 +7,7 @@
      for every nonce stream [nonce] and retry bound [fuel]                   (btcec's RFC 6979),
      for every private key 1 <= d < n, every message / digest (any byte string), every chain id in
      [0, 2^53] and every integer V.  Nothing is bounded. *)
-From Coq Require Import ZArith List Bool.
+From Coq Require Import ZArith List Bool Lia.
 From Coq Require Import Init.Byte.
 From FFS Require Import Base.Res Base.Bytes Crypto.Ecdsa Secp.Model Secp.Spec Secp.Proofs.
 Import ListNotations.
@@ -29,7 +29,7 @@ Theorem C05_sign_shape :
     (sV sg = 27 \/ sV sg = 28 \/ sV sg = 29 \/ sV sg = 30) /\
     1 <= sR sg < n o /\ 1 <= sS sg < n o /\ 2 * sS sg <= n o /\
     ecdsa_verify o (pub o d) (hash_to_z msg) (sR sg) (sS sg) = true.
-Proof. intros o L Hn nonce fuel. exact (SignDirect_shape o L Hn nonce fuel). Qed.
+Proof. intros; eapply SignDirect_shape; eauto. Qed.
 Print Assumptions C05_sign_shape.
 
 (* 1'. "V in {27,28}" is PARTIAL: it holds exactly when no nonce point has an x coordinate >= n (for
@@ -39,7 +39,7 @@ Theorem C05_sign_V_27_28_partial :
   forall o, laws o -> n o < two256 -> forall nonce fuel d msg sg,
     (forall j, xcoord o (smul o (nonce d msg j) (G o)) < n o) ->
     SignDirect o nonce fuel d msg = Ok sg -> sV sg = 27 \/ sV sg = 28.
-Proof. intros o L Hn nonce fuel. exact (SignDirect_V_27_28 o L Hn nonce fuel). Qed.
+Proof. intros; eapply SignDirect_V_27_28; eauto. Qed.
 Print Assumptions C05_sign_V_27_28_partial.
 
 (* 2. Recovery returns exactly the signer's address under all three conventions: V as produced
@@ -55,7 +55,7 @@ Theorem C05_recover_all_conventions :
     RecoverDirect o H (UpdateEIP155 sg c) msg c = Ok (addr_of o H (pub o d)) /\
     sV (UpdateEIP2930 sg) = spec_V YParity c (sV sg - 27) /\
     sV (UpdateEIP155 sg c) = spec_V Eip155 c (sV sg - 27).
-Proof. intros o L Hn H HH nonce fuel. exact (recover_all_conventions o L Hn H HH nonce fuel). Qed.
+Proof. intros; eapply recover_all_conventions; eauto. Qed.
 Print Assumptions C05_recover_all_conventions.
 
 (* 2'. The same through the hashing entry points. *)
@@ -76,6 +76,28 @@ Proof.
 Qed.
 Print Assumptions C05_sign_recover_hashing.
 
+(* 2''. Stated on key pairs: the address stored in the KeyPair built from the key bytes is what
+      recovery returns for that key's signatures. *)
+Theorem C05_recover_is_keypair_address :
+  forall o, laws o -> n o < two256 -> forall H, (forall x, length (H x) = 32%nat) ->
+  forall nonce fuel b kp msg sg c,
+    KeyPairFromBytes o H b = Ok kp -> 1 <= kp_priv o kp < n o -> 0 <= c <= 2 ^ 53 ->
+    SignDirect o nonce fuel (kp_priv o kp) msg = Ok sg -> (sV sg = 27 \/ sV sg = 28) ->
+    RecoverDirect o H sg msg c = Ok (kp_addr o kp) /\
+    RecoverDirect o H (UpdateEIP2930 sg) msg c = Ok (kp_addr o kp) /\
+    RecoverDirect o H (UpdateEIP155 sg c) msg c = Ok (kp_addr o kp).
+Proof.
+  intros o L Hn H HH nonce fuel b kp msg sg c EK Hd Hc E HV.
+  destruct (KeyPairFromBytes_address o H HH b) as (kp' & EK' & _ & B & C & _).
+  rewrite EK in EK'. injection EK' as <-.
+  assert (A : kp_addr o kp = addr_of o H (pub o (kp_priv o kp))) by (rewrite C, B; reflexivity).
+  assert (Hc' : is_int64 c = true).
+  { apply is_int64_iff. change (2 ^ 53) with 9007199254740992 in Hc. unfold two63. lia. }
+  destruct (recover_all_conventions o L Hn H HH nonce fuel (kp_priv o kp) msg sg c c Hd Hc Hc' E HV) as (R1 & R2 & R3 & _).
+  rewrite A. auto.
+Qed.
+Print Assumptions C05_recover_is_keypair_address.
+
 (* 3. Which V are accepted, exactly: getVNormalized (hence RecoverDirect) gets past V normalisation
       iff [v_norm V c] is defined -- V fits int64 and is 0, 1, 27, 28 or has
       (V - 8 - 2c) mod 256 in {27, 28}; it never panics. *)
@@ -88,10 +110,10 @@ Print Assumptions C05_V_accepted_exactly.
       region of known finding C05/v-truncated-to-byte ([v_alias]: V within int64, congruent mod 256
       to 35 + 2c + p but different from it). *)
 Theorem C05_other_V_rejected_partial :
-  forall o, laws o -> forall H, (forall x, length (H x) = 32%nat) -> forall sg msg c,
+  forall o H, (forall x, length (H x) = 32%nat) -> forall sg msg c,
     (forall p, (p = 0 \/ p = 1) -> ~ legit_V p c (sV sg)) -> ~ v_alias (sV sg) c ->
     RecoverDirect o H sg msg c = Err EInvalidV.
-Proof. intros o L H HH. exact (other_V_rejected_partial o L H HH). Qed.
+Proof. exact other_V_rejected_partial. Qed.
 Print Assumptions C05_other_V_rejected_partial.
 
 (* 3''. The full clause "any other V never yields the signer's address" is REFUTED for the model of
@@ -107,7 +129,7 @@ Theorem C05_other_V_refuted :
     V <> 0 -> V <> 1 -> V <> 27 -> V <> 28 ->
     (forall p, (p = 0 \/ p = 1) -> ~ legit_V p c V) /\
     RecoverDirect o H (with_V sg V) msg c = Ok (addr_of o H (pub o d)).
-Proof. intros o L Hn H HH nonce fuel. exact (other_V_refuted o L Hn H HH nonce fuel). Qed.
+Proof. intros; eapply other_V_refuted; eauto. Qed.
 Print Assumptions C05_other_V_refuted.
 
 (* 4. Tampering.  [other_key o H d a]: a is the address of a public key different from the signer's,
@@ -122,8 +144,7 @@ Theorem C05_tamper_flip_parity :
     v_norm V c = Some (55 - sV sg) ->
     RecoverDirect o H (with_V sg V) msg c = Ok a -> other_key o H d a.
 Proof.
-  intros o L Hn H HH nonce fuel d msg sg V c a Hd E HV.
-  exact (tamper_flip_parity o L Hn H HH nonce fuel d msg sg Hd E HV V c a).
+  intros; eapply tamper_flip_parity; eauto.
 Qed.
 Print Assumptions C05_tamper_flip_parity.
 
@@ -135,8 +156,7 @@ Theorem C05_tamper_S :
     s' <> sS sg -> v_norm V c = Some (sV sg) ->
     RecoverDirect o H {| sV := V; sR := sR sg; sS := s' |} msg c = Ok a -> other_key o H d a.
 Proof.
-  intros o L Hn H HH nonce fuel d msg sg s' V c a Hd E HV.
-  exact (tamper_S o L Hn H HH nonce fuel d msg sg Hd E HV s' V c a).
+  intros; eapply tamper_S; eauto.
 Qed.
 Print Assumptions C05_tamper_S.
 
@@ -149,8 +169,7 @@ Theorem C05_tamper_message :
     hash_to_z msg' mod n o <> hash_to_z msg mod n o -> v_norm V c = Some (sV sg) ->
     RecoverDirect o H (with_V sg V) msg' c = Ok a -> other_key o H d a.
 Proof.
-  intros o L Hn H HH nonce fuel d msg sg msg' V c a Hd E HV.
-  exact (tamper_message o L Hn H HH nonce fuel d msg sg Hd E HV msg' V c a).
+  intros; eapply tamper_message; eauto.
 Qed.
 Print Assumptions C05_tamper_message.
 
@@ -181,7 +200,8 @@ Theorem C05_tamper_R_not_algebraic :
 Proof.
   exists Toy.ops. split; [exact Toy.toy_laws|].
   destruct Toy.toy_altered_R_recovers_signer as (sg & E & Hr & Hov & R).
-  exists 5, 7, 3, sg, 4. repeat split; try assumption; try reflexivity. rewrite Hr. discriminate.
+  exists 5, 7, 3, sg, 4. split; [split; [discriminate|reflexivity]|]. split; [exact E|]. split; [exact Hov|].
+  split; [rewrite Hr; discriminate|exact R].
 Qed.
 Print Assumptions C05_tamper_R_not_algebraic.
 
@@ -196,9 +216,9 @@ Print Assumptions C05_malleable_twin.
 
 (* 5. Recovery is total (an error, never a panic) for every integer V, R, S, every message and chain id. *)
 Theorem C05_recover_total :
-  forall o, laws o -> forall H, (forall x, length (H x) = 32%nat) -> forall sg msg c,
+  forall o H, (forall x, length (H x) = 32%nat) -> forall sg msg c,
     RecoverDirect o H sg msg c <> Panic.
-Proof. intros o L H HH. exact (RecoverDirect_total o L H HH). Qed.
+Proof. exact RecoverDirect_total. Qed.
 Print Assumptions C05_recover_total.
 
 (* 6. The 65-byte compact form R(32) || S(32) || V(1) round-trips; any other length is rejected; every
@@ -246,15 +266,17 @@ Definition toyH (x : bytes) : bytes := firstn 32 (x ++ repeat x00 32).
 Lemma toyH_len x : length (toyH x) = 32%nat.
 Proof. unfold toyH. rewrite firstn_length, app_length, repeat_length. apply Nat.min_l. apply Nat.le_add_l. Qed.
 
+Definition toyNonce : Z -> bytes -> nat -> Z := fun _ _ _ => 3.
+
 Example C05_nonvacuous :
   laws Toy.ops /\ n Toy.ops < two256 /\
-  exists sg, SignDirect Toy.ops (fun _ _ _ => 3) 1 5 [x07] = Ok sg /\ sV sg = 28 /\
-    (forall j, xcoord Toy.ops (smul Toy.ops ((fun _ _ _ => 3) 5 [x07] j) (G Toy.ops)) < n Toy.ops) /\
+  exists sg, SignDirect Toy.ops toyNonce 1 5 [x07] = Ok sg /\ sV sg = 28 /\
+    (forall j, xcoord Toy.ops (smul Toy.ops (toyNonce 5 [x07] j) (G Toy.ops)) < n Toy.ops) /\
     RecoverDirect Toy.ops toyH (UpdateEIP155 sg (2 ^ 53)) [x07] (2 ^ 53) = Ok (addr_of Toy.ops toyH (pub Toy.ops 5)) /\
     v_alias (35 + 2 * 5 + 1 + 256) 5 /\ v_norm 29 0 = None.
 Proof.
   split; [exact Toy.toy_laws|]. split; [reflexivity|].
-  destruct (SignDirect Toy.ops (fun _ _ _ => 3) 1 5 [x07]) as [sg| |] eqn:E; try (vm_compute in E; discriminate).
+  destruct (SignDirect Toy.ops toyNonce 1 5 [x07]) as [sg| |] eqn:E; try (vm_compute in E; discriminate).
   exists sg. split; [reflexivity|].
   assert (HV : sV sg = 28) by (vm_compute in E; injection E as <-; reflexivity).
   split; [exact HV|]. split; [intros j; vm_compute; reflexivity|]. split.
